@@ -189,3 +189,132 @@ package actor
 //@   loop 2 invariant tombstones-kept: forall k string :: old(has(r.tombstones, k)) ==> has(r.tombstones, k)
 //@   ensures invariant: repl_t(r)
 //@   ensures tombstones-kept: forall k string :: old(has(r.tombstones, k)) ==> has(r.tombstones, k)
+
+// ---------------------------------------------------------------------------
+//@ property C05
+//@ load go.uber.org/atomic sync/atomic
+// Ready queue: every ring is lock protected, so these are sequential
+// data-structure contracts (Lock/Unlock are no-ops in the sequential reading;
+// the representation invariant is a pre/postcondition of every method).
+// sizeAtomic is a racy hint read outside the lock: it is deliberately NOT part
+// of the invariant, so the code must not rely on it for correctness.
+
+//@ spec func lq_wf(q *localQueue) bool = 0 <= q.head && q.head < 256 && 0 <= q.tail && q.tail < 256 && 0 <= q.size && q.size <= 256 && q.tail == (q.head+q.size)%256
+
+//@ func (*localQueue).pushBack(q, s)
+//@   requires lq_wf(q)
+//@   ensures wf: lq_wf(q)
+//@   ensures full-rejects: result == (old(q.size) < 256)
+//@   ensures rejected-unchanged: !result ==> q.size == old(q.size) && q.head == old(q.head) && q.buf == old(q.buf)
+//@   ensures appended: result ==> q.size == old(q.size) + 1 && q.head == old(q.head) && q.buf[(q.head+old(q.size))%256] == s
+//@   ensures others-kept: result ==> forall i int :: 0 <= i && i < old(q.size) ==> q.buf[(q.head+i)%256] == old(q.buf[(q.head+i)%256])
+//@   modifies localQueue.buf, localQueue.tail, localQueue.size, localQueue.sizeAtomic
+
+//@ func (*localQueue).popFront(q)
+//@   requires lq_wf(q)
+//@   ensures wf: lq_wf(q)
+//@   ensures empty-gives-nil: old(q.size) == 0 ==> result == nil && q.size == 0 && q.head == old(q.head) && q.buf == old(q.buf)
+//@   ensures takes-oldest: old(q.size) > 0 && old(q.sizeAtomic.v) != 0 ==> result == old(q.buf[q.head]) && q.size == old(q.size) - 1 && q.head == (old(q.head)+1)%256
+//@   ensures hint-zero-takes-nothing: old(q.sizeAtomic.v) == 0 ==> result == nil && q.size == old(q.size) && q.head == old(q.head) && q.buf == old(q.buf)
+//@   ensures rest-kept: forall i int :: 1 <= i && i < old(q.size) ==> q.buf[(old(q.head)+i)%256] == old(q.buf[(old(q.head)+i)%256])
+//@   modifies localQueue.buf, localQueue.head, localQueue.size, localQueue.sizeAtomic
+
+// stealHalf moves the first k = min(ceil(n/2), 1 + free(dst)) entries of q:
+// the oldest is returned, the next k-1 are appended to dst in order, the rest
+// stay in q in order. Nothing is lost, nothing is duplicated.
+//@ func (*localQueue).stealHalf(q, dst)
+//@   requires lq_wf(q) && lq_wf(dst)
+//@   loop 1 invariant progress: 1 <= i && i <= stolen && stolen == (old(q.size)+1)/2 && old(q.size) > 0 && q != dst
+//@   loop 1 invariant q-cursor: q.head == (old(q.head)+i)%256 && q.size == old(q.size) - i && q.tail == old(q.tail)
+//@   loop 1 invariant dst-cursor: dst.head == old(dst.head) && dst.size == old(dst.size) + i - 1 && dst.tail == (old(dst.tail)+i-1)%256 && dst.size <= 256
+//@   loop 1 invariant moved: forall j int :: 1 <= j && j < i ==> dst.buf[(old(dst.tail)+j-1)%256] == old(q.buf[(q.head+j)%256])
+//@   loop 1 invariant dst-kept: forall j int :: 0 <= j && j < old(dst.size) ==> dst.buf[(dst.head+j)%256] == old(dst.buf[(dst.head+j)%256])
+//@   loop 1 invariant q-rest-kept: forall j int :: i <= j && j < old(q.size) ==> q.buf[(old(q.head)+j)%256] == old(q.buf[(q.head+j)%256])
+//@   ensures wf: lq_wf(q) && lq_wf(dst)
+//@   ensures same-queue-or-empty: (q == dst || old(q.size) == 0) ==> result == nil && q.size == old(q.size) && dst.size == old(dst.size)
+//@   ensures returns-oldest: q != dst && old(q.size) > 0 ==> result == old(q.buf[q.head])
+//@   ensures conserves-count: q != dst && old(q.size) > 0 ==> q.size + dst.size + 1 == old(q.size) + old(dst.size)
+//@   ensures bounded-steal: q != dst && old(q.size) > 0 ==> old(q.size) - q.size <= (old(q.size)+1)/2 && old(q.size) - q.size >= 1
+//@   ensures moved-in-order: q != dst && old(q.size) > 0 ==> forall j int :: 1 <= j && j < old(q.size) - q.size ==> dst.buf[(old(dst.tail)+j-1)%256] == old(q.buf[(q.head+j)%256])
+//@   ensures dst-kept: q != dst ==> forall j int :: 0 <= j && j < old(dst.size) ==> dst.buf[(dst.head+j)%256] == old(dst.buf[(dst.head+j)%256])
+//@   ensures q-rest-kept: q != dst && old(q.size) > 0 ==> forall j int :: old(q.size) - q.size <= j && j < old(q.size) ==> q.buf[(old(q.head)+j)%256] == old(q.buf[(q.head+j)%256])
+//@   modifies localQueue.buf, localQueue.head, localQueue.tail, localQueue.size, localQueue.sizeAtomic
+
+// global ring (grows by doubling); a zero-length buffer is legal (push grows it first)
+//@ spec func gq_wf(g *globalQueue) bool = 0 <= g.size && g.size <= len(g.buf) && 0 <= g.head && 0 <= g.tail && (len(g.buf) > 0 ==> g.head < len(g.buf) && g.tail < len(g.buf) && g.tail == (g.head+g.size)%len(g.buf)) && (len(g.buf) == 0 ==> g.head == 0 && g.tail == 0)
+
+//@ func (*globalQueue).grow(g)
+//@   requires gq_wf(g) && g.size == len(g.buf)
+//@   loop 1 invariant filled: 0 <= rangeint_iter && rangeint_iter < g.size && g.buf == old(g.buf) && g.head == old(g.head) && g.size == old(g.size) && fresh(next) && len(next) == newCap && newCap > g.size
+//@   loop 1 invariant copied: forall j int :: 0 <= j && j < rangeint_iter ==> next[j] == old(g.buf[(g.head+j)%len(g.buf)])
+//@   loop 1 invariant old-untouched: old_objects_unchanged(g.buf)
+//@   ensures wf: gq_wf(g) && g.size == old(g.size) && g.head == 0 && len(g.buf) > g.size
+//@   ensures same-order: forall j int :: 0 <= j && j < g.size ==> g.buf[j] == old(g.buf[(g.head+j)%len(g.buf)])
+//@   ensures old-buffer-untouched: old_objects_unchanged(g.buf)
+//@   modifies globalQueue.buf, globalQueue.head, globalQueue.tail
+
+//@ func (*globalQueue).push(g, s)
+//@   requires gq_wf(g)
+//@   ensures wf: gq_wf(g) && g.size == old(g.size) + 1
+//@   ensures appended-last: g.buf[(g.head+g.size-1)%len(g.buf)] == s
+//@   ensures order-kept: forall j int :: 0 <= j && j < old(g.size) ==> g.buf[(g.head+j)%len(g.buf)] == old(g.buf[(g.head+j)%len(g.buf)])
+//@   modifies globalQueue.buf, globalQueue.head, globalQueue.tail, globalQueue.size, elems(schedulable)
+
+//@ func (*globalQueue).pop(g)
+//@   requires gq_wf(g)
+//@   ensures wf: gq_wf(g)
+//@   ensures empty-gives-nil: old(g.size) == 0 ==> result == nil && g.size == 0 && g.head == old(g.head)
+//@   ensures takes-oldest: old(g.size) > 0 ==> result == old(g.buf[g.head]) && g.size == old(g.size) - 1 && g.head == (old(g.head)+1)%len(g.buf) && g.buf == old(g.buf)
+//@   ensures rest-kept: forall j int :: 1 <= j && j < old(g.size) ==> g.buf[(old(g.head)+j)%len(g.buf)] == old(g.buf[(g.head+j)%len(g.buf)])
+//@   modifies globalQueue.head, globalQueue.size, elems(schedulable)
+
+// ---- the shared part: global ring + parking, all under parkMu ----------------
+//@ spec func rq_wf(rq *readyQueue) bool = gq_wf(&rq.global) && rq.parked >= 0
+//@ ghost var signalled bool
+//@ ghost var broadcast bool
+//@ ghost var waited_ok bool
+
+//@ func (*readyQueue).push(rq, s)
+//@   requires rq_wf(rq)
+//@   ghost entry signalled = false
+//@   at call 1 of (*Cond).Signal ghost signalled = true
+//@   ensures wf: rq_wf(rq)
+//@   ensures queued-last: rq.global.size == old(rq.global.size) + 1 && rq.global.buf[(rq.global.head+rq.global.size-1)%len(rq.global.buf)] == s
+//@   ensures order-kept: forall j int :: 0 <= j && j < old(rq.global.size) ==> rq.global.buf[(rq.global.head+j)%len(rq.global.buf)] == old(rq.global.buf[(rq.global.head+j)%len(rq.global.buf)])
+//@   ensures wakes-a-parked-worker: old(rq.parked) > 0 ==> signalled
+//@   ensures parked-unchanged: rq.parked == old(rq.parked) && rq.closed == old(rq.closed)
+
+// pushLocal: the item lands in the worker's own ring, or - when that ring is
+// full - in the global ring with the same wake-up guarantee as push.
+//@ func (*readyQueue).pushLocal(rq, workerID, s)
+//@   requires rq_wf(rq) && 0 <= workerID && workerID < len(rq.locals) && rq.locals[workerID] != nil && lq_wf(rq.locals[workerID])
+//@   ghost entry signalled = false
+//@   ensures wf: rq_wf(rq) && lq_wf(rq.locals[workerID])
+//@   ensures local-or-global: (old(rq.locals[workerID].size) < 256 ==> rq.locals[workerID].size == old(rq.locals[workerID].size) + 1 && rq.global.size == old(rq.global.size)) && (old(rq.locals[workerID].size) == 256 ==> rq.global.size == old(rq.global.size) + 1 && rq.locals[workerID].size == 256)
+//@   ensures overflow-wakes-a-parked-worker: old(rq.locals[workerID].size) == 256 && old(rq.parked) > 0 ==> signalled
+
+//@ func (*readyQueue).popGlobal(rq)
+//@   requires rq_wf(rq)
+//@   ensures wf: rq_wf(rq)
+//@   ensures takes-oldest-or-nothing: result != nil ==> old(rq.global.size) > 0 && result == old(rq.global.buf[rq.global.head]) && rq.global.size == old(rq.global.size) - 1
+//@   ensures nothing-lost: result == nil ==> rq.global.size == old(rq.global.size) || old(rq.global.buf[rq.global.head]) == nil
+
+// parkAndTake: a worker goes to sleep only when the global ring is provably
+// empty and the queue is open; it gives up only when the queue is closed.
+//@ func (*readyQueue).parkAndTake(rq)
+//@   requires rq_wf(rq)
+//@   loop 1 invariant wf: rq_wf(rq)
+//@   at call 1 of (*Cond).Wait assert parks-only-when-idle: rq.global.size == 0 && !rq.closed && rq.parked >= 1
+//@   ensures wf: rq_wf(rq)
+//@   ensures gives-up-only-when-closed: !result1 ==> rq.closed && result0 == nil
+
+//@ func (*readyQueue).close(rq)
+//@   ghost entry broadcast = false
+//@   at call 1 of (*Cond).Broadcast ghost broadcast = true
+//@   ensures closes-and-wakes-everyone: rq.closed && broadcast
+
+// sync.Cond: Wait releases the lock, so everything parkMu protects may have
+// changed when it returns (the invariant holds again); Signal/Broadcast touch nothing.
+//@ func (*localQueue).length(q)
+//@   requires lq_wf(q)
+//@   ensures result == q.size
